@@ -807,6 +807,15 @@ def negate_atom(a):
     return None
 
 
+_FAM = {'Some': 'option', 'None': 'option', 'Ok': 'result', 'Err': 'result', 'Continue': 'cf', 'Break': 'cf'}
+
+
+def variant_family(v):
+    """payload projections are transparent in keys, so `x is Some` and `x is Local` (the payload's variant) may share a key:
+    only variants of one enum family exclude each other"""
+    return _FAM.get(v, 'user')
+
+
 def conj_simplify(atoms):
     """deduplicate, intersect intervals on equal vectors; None if contradictory"""
     lin = {}
@@ -843,12 +852,12 @@ def conj_simplify(atoms):
         # is(X, A, True) and is(X, B, True) with A != B contradict
         if a[0] == 'is' and a[3]:
             for b in rest:
-                if b[0] == 'is' and b[3] and b[1] == a[1] and b[2] != a[2]:
+                if b[0] == 'is' and b[3] and b[1] == a[1] and b[2] != a[2] and variant_family(b[2]) == variant_family(a[2]):
                     return None
         out.append(a)
-    # drop negative variant facts implied by a positive one
-    pos = {(a[1]): a[2] for a in out if a[0] == 'is' and a[3]}
-    out = [a for a in out if not (a[0] == 'is' and not a[3] and a[1] in pos)]
+    # drop negative variant facts implied by a positive one (same enum family)
+    pos = {(a[1], variant_family(a[2])) for a in out if a[0] == 'is' and a[3]}
+    out = [a for a in out if not (a[0] == 'is' and not a[3] and (a[1], variant_family(a[2])) in pos)]
     return sorted(set(out), key=repr)
 
 
@@ -883,7 +892,7 @@ def conj_implies_atom(conj, b):
             return False
         # negative variant fact follows from a positive fact about another variant
         for a in conj:
-            if a[0] == 'is' and a[3] and a[1] == b[1] and a[2] != b[2]:
+            if a[0] == 'is' and a[3] and a[1] == b[1] and a[2] != b[2] and variant_family(a[2]) == variant_family(b[2]):
                 return True
         return False
     if t == 'relz':
